@@ -95,6 +95,13 @@ theorem nTo_mul_nFrom (kind : Norm) (lmax l : ℕ) : (nTo kind lmax l : ℝ) * n
   · field_simp; rw [sq, h4]
   · ring
 
+/-- `FromS2Grid` is linear (homogeneity; used for `S2Activation` with a linear activation) -/
+theorem fromForwardDense_smul (lmax N M : ℕ) (shb : ℕ → ℕ → ℕ → ℝ) (g : ℕ → ℕ → ℝ) (c : ℝ) (i : ℕ) :
+    fromForwardDenseWith lmax N M shb (fun b a => c * g b a) i = c * fromForwardDenseWith lmax N M shb g i := by
+  simp only [fromForwardDenseWith, fromCoeff, fromAlphaDense, sumRange_real, Finset.mul_sum]
+  refine Finset.sum_congr rfl fun b _ => Finset.sum_congr rfl fun m _ => Finset.sum_congr rfl fun a _ => ?_
+  ring
+
 /-! ### SO3Grid -/
 
 theorem so3_roundtrip (dim nb na : ℕ) (D : ℕ → ℕ → ℕ → ℕ → ℝ) (F : ℕ → ℝ) (hdim : 0 < dim)
@@ -119,7 +126,19 @@ theorem so3_roundtrip (dim nb na : ℕ) (D : ℕ → ℕ → ℕ → ℕ → ℝ
       = ∑ j ∈ range dim, F j * ∑ a ∈ range na, ∑ b ∈ range nb, ∑ c ∈ range na,
           so3Qw nb na b * (D a b c i * D a b c j) := by
     simp_rw [Finset.mul_sum]
-    rw [Finset.sum_comm' (s := range na) (t := fun _ => range nb) (t' := range dim) (s' := fun _ => range na)]
-  sorry
+    calc _ = ∑ a ∈ range na, ∑ b ∈ range nb, ∑ j ∈ range dim, ∑ c ∈ range na,
+              F j * (so3Qw nb na b * (D a b c i * D a b c j)) :=
+            Finset.sum_congr rfl fun a _ => Finset.sum_congr rfl fun b _ => Finset.sum_comm
+      _ = ∑ a ∈ range na, ∑ j ∈ range dim, ∑ b ∈ range nb, ∑ c ∈ range na,
+              F j * (so3Qw nb na b * (D a b c i * D a b c j)) :=
+            Finset.sum_congr rfl fun a _ => Finset.sum_comm
+      _ = _ := Finset.sum_comm
+  rw [e2]
+  have e3 : ∀ j ∈ range dim, F j * ∑ a ∈ range na, ∑ b ∈ range nb, ∑ c ∈ range na,
+        so3Qw nb na b * (D a b c i * D a b c j) = if i = j then F j else 0 := by
+    intro j hj
+    rw [horth i j hi (Finset.mem_range.mp hj)]
+    split_ifs <;> simp
+  rw [Finset.sum_congr rfl e3, Finset.sum_ite_eq, if_pos (Finset.mem_range.mpr hi)]
 
 end E3nnVerif.S2Grid
